@@ -16,7 +16,7 @@
    the band DBL_MAX .. 10^309, overflowing mantissas with a point or > 19 digits, and the
    sign bit being CLEAR for non-negative numerals (needs a bound on the computed exponent). *)
 From Coq Require Import NArith ZArith List Bool.
-From Qv Require Import gen.Tables_digit DigitModel DigitModelSpec DigitProofsInt DigitProofsParse DigitProofsReject DigitProofsSign DigitProofsOverflow DigitProofsAccPos.
+From Qv Require Import gen.Tables_digit DigitModel DigitModelSpec DigitProofsInt DigitProofsParse DigitProofsReject DigitProofsSign DigitProofsOverflow DigitProofsAccPos DigitProofsAccNeg.
 Import ListNotations.
 Local Open Scope N_scope.
 
@@ -240,3 +240,41 @@ Theorem c09_pos_power_examples :
   /\ power_of_positive_ten 1 23 = Ok (Some 4950912855330343671).
 Proof. exact ppt_examples. Qed.
 Print Assumptions c09_pos_power_examples.
+
+(* ================= Accuracy phase 2: the negative power-of-ten path (Digit::powerOfNegativeTen) ================= *)
+(* power_of_negative_ten m e = pnt_scaled m e (the reciprocal-of-five multiplications) followed by pnt_final
+   (rounding and packing).  NInv K b e A :  | b * 5^e - A | * 2^62 <= K * 5^e * 2^62 + K * A. *)
+Theorem c09_neg_power_split : forall m e,
+  power_of_negative_ten m e = (do '(b2, sh2) <- pnt_scaled m e; pnt_final b2 sh2).
+Proof. exact pnt_unfold. Qed.
+Print Assumptions c09_neg_power_split.
+
+(* GENERIC BOUND, every mantissa < 2^64 and exponent: the scaled integer b2 (which should be
+   m * 2^sh2 / 10^e = A / 5^e with A = m * 2^(sh2 - e)) is off by at most K units plus a relative K * 2^-62,
+   K <= e / 27 + 1 the number of multiplications.  Uses the reciprocal table facts re-checked per run. *)
+Theorem c09_neg_power_scaled_bound : forall m e b2 sh2,
+  m < 2 ^ 64 -> e < 2 ^ 20 -> pnt_scaled m e = Ok (b2, sh2) ->
+  exists K, K <= e / 27 + 1 /\ e + 64 <= sh2 /\ NInv K b2 e (m * 2 ^ (sh2 - e)).
+Proof. exact pnt_scaled_bound. Qed.
+Print Assumptions c09_neg_power_scaled_bound.
+
+(* ONE ULP under the guard pnt_guard m e (a boolean, measured by the check on its generated numerals):
+   the scaled integer has at least 59 bits (5 guard bits below the 53-bit result), e <= 377, and the result
+   is a normal double.  Then | m / 10^e - r | < ulp(r)  (multiplied by 10^e * 2^1075).
+   NOT covered: numerals outside the guard (1- or 2-digit mantissas with exponents near -300: only ~3 guard
+   bits; subnormal results), for which only the generic bound above is proved; correct rounding (not claimed). *)
+Theorem c09_neg_power_one_ulp_guarded : forall m e bits,
+  0 < m -> m < 2 ^ 64 -> pnt_guard m e = true ->
+  power_of_negative_ten m e = Ok bits ->
+  1 <= dbl_x bits
+  /\ dbl_M bits * 2 ^ dbl_x bits * 10 ^ e < m * 2 ^ 1075 + 2 ^ dbl_x bits * 10 ^ e
+  /\ m * 2 ^ 1075 < dbl_M bits * 2 ^ dbl_x bits * 10 ^ e + 2 ^ dbl_x bits * 10 ^ e.
+Proof. exact pnt_one_ulp_guarded. Qed.
+Print Assumptions c09_neg_power_one_ulp_guarded.
+
+(* non-vacuity: 15e-11 and 12345678901234567e-30 are inside the guard, 1e-325 is not *)
+Theorem c09_neg_power_examples :
+  pnt_guard 15 11 = true /\ power_of_negative_ten 15 11 = Ok 4459862875403570764
+  /\ pnt_guard 12345678901234567 30 = true /\ pnt_guard 1 325 = false.
+Proof. exact pnt_examples. Qed.
+Print Assumptions c09_neg_power_examples.
